@@ -720,7 +720,8 @@ def inverseProg (c : TClass) (childSvf childInv : Nat → Bool) (link ub : Bool)
     [setattr 10 kTransforms 30]
   else inverseLeaf st c.svf (st.regs 0) 10 0 link ub invertFlag
 
-/-- `grid_(grid)` — base.py @131-139 (`sameGrid` = the value of `self._grid == grid`).  r1 = grid -/
+/-- `grid_(grid)` — base.py @131-139 (`sameGrid` = the value of
+    `self._grid == grid and self._grid.align_corners() == grid.align_corners()`, fix 1487985).  r1 = grid -/
 def gridSetBase (c : TClass) (childNonrigid : Nat → Bool) (obj grid : Nat) (sameGrid : Bool) : List Cmd :=
   if sameGrid then [] else clearBuffers c childNonrigid obj ++ [setattr obj kGrid grid]
 
